@@ -207,8 +207,12 @@ def c03(v):
         hw = v.who("handler")
         dec = "S"
         if hw is not None and not poll2:
+            # the decision the configured sleep handler gives for this attempt (scripted), whether or not it was asked
+            hl = v.env.get("handler") or []
+            dec = hl[a - 1] if a - 1 < len(hl) else "S"
             hs = [e for e in seg if e[0] == "H"]
-            dec = hs[0][5] if hs else "S"
+            if len(hs) != 1:
+                return f"attempt {a}: retry granted with a sleep handler configured ({hw}), but it was consulted {len(hs)} times"
         bs_c = v.env["bs_cancel"][a - 1] if a - 1 < len(v.env["bs_cancel"]) else None
         bs_c = bs_c if v.who("bs") else None
         should_sleep = (not poll2) and dec == "S" and not bs_c
